@@ -275,7 +275,8 @@ def plan(tier):
                         for corrupt in fault_patterns(8 if job not in ("J2", "J9") else 4, 3 if job == "J3" else (1 if job in ("J8", "J9") else 2)):
                             base = {"job": job, "dialect": dialect, "greeting": greeting, "eager": eager, "corrupt": corrupt}
                             items.append(({**base, "line_points": True}, 0, None))
-                            if len(corrupt) <= 1 and job == "J3":
+                            if job == "J3" and greeting is None and corrupt in ((), (1,), (2,)) and dialect != "C":
+                                # measured: up to ~100 000 executions (10 ms each) per configuration at two deviations
                                 items.append(({**base, "line_points": False}, 2, None))
                             if len(corrupt) <= 1 and not (eager and job != "J3"):
                                 items.append(({**base, "line_points": True}, 1, None))
